@@ -798,6 +798,7 @@ class Subscription(BaseSubscription):
         queue_put = self.queue.put
         with self.storage.stat_collector.timeit("query") as counter:
             plans = QueryPlans()
+            cancelled = False
             iterator = executor(
                 self.storage.db,
                 self.query,
@@ -827,10 +828,14 @@ class Subscription(BaseSubscription):
             except asyncio.exceptions.CancelledError:
                 # cancellations are normal
                 self.log.debug("Cancelled run_query")
+                # the subscription was closed or replaced: an EOSE sent now would be
+                # taken for the EOSE of a new subscription using the same id
+                cancelled = True
             except Exception:
                 self.log.exception("run_query")
             finally:
-                await queue_put((sub_id, None))
+                if not cancelled:
+                    await queue_put((sub_id, None))
                 analyze(plans)
 
         self.log.debug("Done with query")
